@@ -77,6 +77,16 @@ def run_family(res, fam, scale, seed, budget):
 
 def explore(res, scale=1, seed=None):
     seed = res.seed if seed is None else seed
+    # the streamed-input half of the property ("then the input blocks in order followed by an empty terminator"):
+    # the wire of OnInput-driven inserts with reused column memory, parsed by the reference parser, must carry the
+    # caller's blocks in order - the C09 family run here with a small budget (oracle texts are about the wire)
+    import importlib
+    c09 = importlib.import_module("checks.c09")
+    rows9, model9, stats9, _wd9 = c09.run_family(res, "c09", scale, seed, max(120, c09.BUDGET[res.tier] // 4))
+    C.compare_rows(res, rows9, model9, "correspondence(streamed input blocks on the wire)")
+    res.account(rows9)
+    for k, v in stats9.items():
+        res.distribution["streamed." + k] = res.distribution.get("streamed." + k, 0) + v
     rows, model_raw, stats, wd = run_family(res, "c02", scale, seed, BUDGET[res.tier])
     # after " # ": byte equality of the model's sender with the implementation - a diagnostic of model
     # drift, not part of the property (C02 does not pin the bytes)
